@@ -48,7 +48,8 @@ Print Assumptions C04_refused_gets_failure_ack.
 
 (* (3) histories — over ALL sequences of TunnelOpen packets (from any connections in any authentication state), mapping
    store changes (create / revoke / expire / delete), routing changes by other nodes, bridge closures and forward
-   completions, starting from a fresh session manager: a connection that a bridge holds (as source or target) or that
+   completions, and routing polls of requests that arrived BEFORE their tunnel existed (EResolve / ETimeout), starting from
+   a fresh session manager: a connection that a bridge holds (as source or target) or that
    is being forwarded to another node got there through one of its own TunnelOpen requests, and that request was
    entitled to the tunnel's mapping at the moment it was accepted *)
 Theorem C04_held_only_via_entitled_open :
@@ -66,7 +67,7 @@ Theorem C04_refused_gets_no_bytes :
     forall t, ~ holds (run v cfg (init d rt) es) cr t.
 Proof.
   intros v cfg d rt es cr H.
-  exact (refused_never_holds v cfg es (init d rt) cr (init_holds_nothing d rt cr) H).
+  exact (refused_never_holds v cfg es (init d rt) cr (init_holds_nothing d rt cr) (init_parks_nothing d rt cr) H).
 Qed.
 Print Assumptions C04_refused_gets_no_bytes.
 
@@ -114,4 +115,25 @@ Theorem C04_premises_satisfiable :
   open current ex_cfg ex_db (fun _ => None) (fun t => if N.eqb t 7 then Some {| ro_node := 2; ro_mid := 1 |} else None) ex_tgt ex_req = Forward.
 Proof. exact (conj legit_history_attaches legit_cross_node_forwards). Qed.
 Print Assumptions C04_premises_satisfiable.
+
+(* (6) requests parked in the routing poll (they arrived before their tunnel existed): an entitled early target is attached
+   once the tunnel appears; the target client of ANOTHER mapping, parked on the same client-chosen tunnel id, is dropped when
+   the poll fires (mapping-agreement test at resolution time) — and without that test the tunnel is handed to it *)
+Theorem C04_parked_requests :
+  (let s := run current ex_cfg (init ex_db2 (fun _ => None)) ex_park_ok in
+   s_tun s 9 = Some {| b_mid := 1; b_src := Some 2000; b_tgt := Some 2001 |} /\
+   s_log s = [(2001, 9, true); (2000, 9, true)] /\ s_park s = []) /\
+  (let s := run current ex_cfg (init ex_db2 (fun _ => None)) ex_park_other in
+   s_park (run current ex_cfg (init ex_db2 (fun _ => None)) (firstn 2 ex_park_other)) <> [] /\
+   s_tun s 9 = Some {| b_mid := 1; b_src := Some 2000; b_tgt := None |} /\
+   s_log s = [(2000, 9, true)] /\ s_park s = []).
+Proof. exact (conj parked_entitled_attaches parked_other_mapping_refused). Qed.
+Print Assumptions C04_parked_requests.
+
+Theorem C04_pinned_parked_refuted :
+  exists d es cr t,
+    holds (run pinned ex_cfg (init d (fun _ => None)) es) cr t /\
+    In (cr, t, false) (s_log (run pinned ex_cfg (init d (fun _ => None)) es)).
+Proof. exact pinned_parked_refuted. Qed.
+Print Assumptions C04_pinned_parked_refuted.
 Close Scope N_scope.
